@@ -62,19 +62,19 @@ KERNELS = [
          params=[("individ", "Arr"), ("mutant", "Arr"), ("CR", "Int")], ret="Arr", streams=True),
     dict(name="one_point_crossover", file="utils/crossovers.py", func="one_point_crossover",
          params=[("individs", "Mat"), ("fitness", "Arr"), ("rank", "Arr")], ret="Arr", streams=True,
-         ext={"random_sample": ("sampled", "Arr")}),
+         ext_fn={"random_sample": ("sampler", ["range_size", "quantity", "replace"])}),
     dict(name="two_point_crossover", file="utils/crossovers.py", func="two_point_crossover",
          params=[("individs", "Mat"), ("fitness", "Arr"), ("rank", "Arr")], ret="Arr", streams=True,
-         ext={"random_sample": ("sampled", "Arr")}),
+         ext_fn={"random_sample": ("sampler", ["range_size", "quantity", "replace"])}),
     dict(name="uniform_crossover", file="utils/crossovers.py", func="uniform_crossover",
          params=[("individs", "Mat"), ("fitness", "Arr"), ("rank", "Arr")], ret="Arr", streams=True,
-         ext={"random_sample": ("sampled", "Arr")}),
+         ext_fn={"random_sample": ("sampler", ["range_size", "quantity", "replace"])}),
     dict(name="uniform_proportional_crossover", file="utils/crossovers.py", func="uniform_proportional_crossover",
          params=[("individs", "Mat"), ("fitness", "Arr"), ("rank", "Arr")], ret="Arr", streams=True,
-         ext={"random_weighted_sample": ("sampled", "Arr")}),
+         ext_fn={"random_weighted_sample": ("wsampler", ["weights", "quantity", "replace"])}),
     dict(name="uniform_rank_crossover", file="utils/crossovers.py", func="uniform_rank_crossover",
          params=[("individs", "Mat"), ("fitness", "Arr"), ("rank", "Arr")], ret="Arr", streams=True,
-         ext={"random_weighted_sample": ("sampled", "Arr")}),
+         ext_fn={"random_weighted_sample": ("wsampler", ["weights", "quantity", "replace"])}),
     dict(name="empty_crossover", file="utils/crossovers.py", func="empty_crossover",
          params=[("individs", "Mat"), ("fitness", "Arr"), ("rank", "Arr")], ret="Arr"),
     dict(name="sattolo_shuffle", file="utils/random.py", func="sattolo_shuffle",
@@ -547,7 +547,7 @@ class Tr:
 
     def is_sample1(self, e):
         """random_sample(range_size=R, quantity=1, replace=True)[0]"""
-        if "random_sample" in self.ext:
+        if "random_sample" in self.ext or "random_sample" in self.ext_fn:
             return False
         if not (isinstance(e, ast.Subscript) and isinstance(e.slice, ast.Constant) and e.slice.value == 0 and isinstance(e.value, ast.Call)
                 and callname(e.value.func) == "random_sample"):
